@@ -80,7 +80,7 @@ def parse_records(text):
             cur._pending = []
             cur.calls.append(c)
             last = c
-        elif t == "E":
+        elif t == "E" and l[1:2] == " " and l.split(" ")[1].lstrip("-").isdigit():
             parts = l.split(" ")
             eid = int(parts[1])
             d = kvs(l)
